@@ -61,6 +61,27 @@ def chk(cond, sig, msg=""):
     raise Violation(sig, m)
 
 
+class Raised(Exception):
+    pass
+
+
+def guarded(fn, sig_prefix, who):
+    """Run a library call; an undocumented QhullError escaping from it is a violation whose signature carries
+    qhull's own error code (QH6214 'not enough points', QH6240 'cospherical sites', ...): different codes are
+    different root causes. Other exceptions are left to the runner (sig from the innermost trimesh frame)."""
+    from scipy.spatial import QhullError
+
+    try:
+        return fn()
+    except QhullError as e:
+        txt = str(e).strip()
+        code = txt.split()[0] if txt.startswith("QH") else "QH?"
+        if _PROBE is not None:
+            _PROBE.append((f"{sig_prefix}|raises_QhullError|{code}|{who}", txt[:200]))
+            raise Raised()
+        raise Violation(f"{sig_prefix}|raises_QhullError|{code}|{who}", txt[:300])
+
+
 # ------------------------------------------------------------------------------------------------
 # geometry of the input set
 
@@ -132,6 +153,18 @@ def rigid_clause(T, d, sigbase, who):
     return R, T[:d, d]
 
 
+def shortcut_allowance(R, ps):
+    """transformations.transform_points (used by bounds.oriented_bounds to place the box centre) and
+    Trimesh.apply_transform document an identity shortcut: a matrix within 1e-8 (elementwise) of the identity is not
+    applied at all. oriented_bounds calls it with the candidate rotation *before* the final axis re-ordering, so the
+    shortcut can have been taken exactly when the returned rotation is within 1e-8 of a signed permutation matrix;
+    the neglected displacement is at most 3*1e-8*|p| + 1e-8. Only that narrow class gets the allowance."""
+    A = np.abs(np.asarray(R, dtype=np.float64))
+    if float(np.abs(A - np.round(A)).max()) < 2e-8:
+        return 3e-8 * ps.M + 1e-8
+    return 0.0
+
+
 def box_clauses(ps, T, ext, sigbase, who, pts=None, extra_tol=0.0):
     """T maps world -> box frame; points must land in [-ext/2, ext/2], tight and centred."""
     d = ps.d
@@ -140,7 +173,7 @@ def box_clauses(ps, T, ext, sigbase, who, pts=None, extra_tol=0.0):
     R, t = rigid_clause(T, d, sigbase, who)
     P = ps.P if pts is None else pts
     Q = P @ R.T + t
-    tol = ps.tol + extra_tol
+    tol = ps.tol + extra_tol + (shortcut_allowance(R, ps) if d == 3 else 0.0)
     over = float((np.abs(Q) - ext / 2.0).max())
     chk(over <= tol, f"{sigbase}|{who}|contains", lambda: f"point sticks out of the box by {over:.3e} (tol {tol:.3e}, diam {ps.diam:.3e}, extents {ext.tolist()})")
     span = Q.max(axis=0) - Q.min(axis=0)
@@ -216,19 +249,20 @@ def make_geom(case, P, F):
 
 def classify_open_hull(ps):
     """Label (for the signature only, not part of the oracle) why a hull may have come back open: trimesh drops
-    faces whose cross product is below the absolute tol.zero=1e-13 and merges vertices closer than the absolute
-    tol.merge=1e-8. The raw qhull triangulation is inspected for such faces / vertex pairs."""
+    faces whose cross product is at most the absolute tol.zero=1e-13 (also faces with three distinct, exactly or
+    nearly collinear vertices, which qhull's 'Qt' triangulation of merged facets does produce) and merges vertices
+    closer than the absolute tol.merge=1e-8. The raw qhull triangulation is inspected for such faces / vertex pairs."""
     try:
         from scipy.spatial import ConvexHull, cKDTree
 
         q = ConvexHull(ps.P, qhull_options="QbB Pp Qt")
         tri = q.points[q.simplices]
         nn = np.linalg.norm(np.cross(tri[:, 1] - tri[:, 0], tri[:, 2] - tri[:, 0]), axis=1)
-        small = int(((nn > 0) & (nn <= 1e-13)).sum())
+        small = int((nn <= 1e-13).sum())
         hv = q.points[q.vertices]
         dd = cKDTree(hv).query(hv, k=2)[0][:, 1]
         if small:
-            return "faces_below_tol_zero", f"{small} of {len(nn)} qhull faces have 0 < |cross| <= 1e-13 (smallest {nn[nn > 0].min():.3e})"
+            return "faces_below_tol_zero", f"{small} of {len(nn)} qhull faces have |cross| <= 1e-13 (smallest {nn.min():.3e}, {int((nn == 0).sum())} exactly zero) and are dropped by convex_hull"
         if (dd <= 1e-8 * 1.5).any():
             return "vertices_within_tol_merge", f"closest pair of hull vertices {dd.min():.3e} apart"
         return "other", f"smallest qhull face |cross| {nn.min():.3e}, closest hull vertices {dd.min():.3e}"
@@ -236,26 +270,26 @@ def classify_open_hull(ps):
         return "other", f"(classification failed: {type(e).__name__})"
 
 
-def hull_clauses(ps, hull, sigbase):
+def hull_clauses(ps, hull, src):
     P = ps.P
-    chk(isinstance(hull, trimesh.Trimesh) and len(hull.faces) >= 4, f"{sigbase}|is_mesh", lambda: f"{hull}")
+    sigbase = "C16.hull"
+    chk(isinstance(hull, trimesh.Trimesh) and len(hull.faces) >= 4, f"{sigbase}|is_mesh|{src}", lambda: f"{hull}")
     if not hull.is_watertight:
         why, txt = classify_open_hull(ps)
-        chk(False, f"{sigbase}|watertight|{why}", f"{len(hull.vertices)} vertices {len(hull.faces)} faces; {txt}")
-    chk(bool(hull.is_winding_consistent), f"{sigbase}|winding_consistent", "")
+        chk(False, f"C16.hull|watertight|{why}|{src}", f"{len(hull.vertices)} vertices {len(hull.faces)} faces; {txt}")
+    chk(bool(hull.is_winding_consistent), f"{sigbase}|winding_consistent|{src}", "")
     V = np.asarray(hull.vertices, dtype=np.float64)
     F = np.asarray(hull.faces, dtype=np.int64)
     # own signed volume (divergence theorem about the bbox centre), no trimesh code
     c0 = (ps.lo + ps.hi) / 2.0
     W = V - c0
     vol = float(np.einsum("ij,ij->i", W[F[:, 0]], np.cross(W[F[:, 1]], W[F[:, 2]])).sum() / 6.0)
-    chk(vol > 0, f"{sigbase}|volume_positive|own", f"own signed volume {vol:.6e}")
-    chk(float(hull.volume) > 0, f"{sigbase}|volume_positive|reported", lambda: f"hull.volume {hull.volume}")
-    chk(bool(hull.is_convex), f"{sigbase}|is_convex", "hull.is_convex is False")
+    chk(vol > 0, f"{sigbase}|volume_positive|own|{src}", f"own signed volume {vol:.6e}")
+    chk(float(hull.volume) > 0, f"{sigbase}|volume_positive|reported|{src}", lambda: f"hull.volume {hull.volume}")
     # vertices are input points, exactly (qhull returns indices; nothing moves a coordinate)
     inp = {r.tobytes() for r in (P + 0.0)}  # +0.0: -0.0 and 0.0 have different bytes
     missing = [i for i, r in enumerate(V + 0.0) if r.tobytes() not in inp]
-    chk(not missing, f"{sigbase}|vertex_is_input_point", lambda: f"hull vertex {V[missing[0]].tolist()} is not an input point")
+    chk(not missing, f"{sigbase}|vertex_is_input_point|{src}", lambda: f"hull vertex {V[missing[0]].tolist()} is not an input point")
     # containment: every input point on the inner side of every face plane
     tri = V[F]
     e1 = tri[:, 1] - tri[:, 0]
@@ -274,10 +308,18 @@ def hull_clauses(ps, hull, sigbase):
     worst = np.unravel_index(int(np.argmax(excess)), excess.shape)
     chk(
         excess[worst] <= 0,
-        f"{sigbase}|contains_input",
+        f"{sigbase}|contains_input|{src}",
         lambda: f"input point {P[worst[1]].tolist()} is {D[worst]:.3e} outside face {F[ok][worst[0]].tolist()} (tol {tol_f[ok][worst[0]]:.3e}, diam {ps.diam:.3e})",
     )
     well = int((amp <= 1e3).sum())
+    # the library's own predicate must agree. Class for the signature: does the hull carry sliver faces
+    # (smallest height below 1e-6 of the diameter) whose normals are decided by round-off?
+    sliver = bool((amp > 1e6).any())
+    chk(
+        bool(hull.is_convex),
+        f"{sigbase}|is_convex_false|{'hull_has_sliver_faces' if sliver else 'no_sliver_faces'}|{src}",
+        lambda: f"hull is watertight, consistently wound, contains every input point, but hull.is_convex is False (smallest face height/diam {float((h[ok] / ps.diam).min()):.3e})",
+    )
     return {"faces": len(F), "well_conditioned_faces": well, "interior": len(ps.U) > len(V)}
 
 
@@ -290,12 +332,11 @@ def b_hull(case, ctx):
     if not in_generated_domain(ps):
         ctx.note(cls="hull:skipped_not_spanning")
         return
-    sigbase = f"C16.hull|{src}"
     if src == "points":
         hull = tc.convex_hull(P.copy())
     else:
         hull = make_geom(case, P, F).convex_hull
-    info = hull_clauses(ps, hull, sigbase)
+    info = hull_clauses(ps, hull, src)
     # hull_points: a convex subset of the input
     if src == "points":
         hp = np.asarray(tc.hull_points(P.copy()))
@@ -361,6 +402,29 @@ def b_is_convex(case, ctx):
 # boxes
 
 
+def obb_guarded(fn, ps, who):
+    """oriented_bounds is built on convex.convex_hull: when that hull comes back open (see C16.hull|watertight|...)
+    the silhouette search finds no edges and numpy raises ValueError('zero-size array ...'). Give that consequence
+    its own signature instead of the generic exception bucket; anything else goes to the runner unchanged."""
+    try:
+        return fn()
+    except ValueError as e:
+        if "zero-size array" not in str(e) or ps.d != 3:
+            raise
+        try:
+            open_hull = not tc.convex_hull(ps.P.copy()).is_watertight
+        except Exception:  # noqa
+            open_hull = False
+        if not open_hull:
+            raise
+        why, txt = classify_open_hull(ps)
+        sig = f"C16.box|raises_ValueError|open_hull|{why}|{who}"
+        if _PROBE is not None:
+            _PROBE.append((sig, txt))
+            raise Raised()
+        raise Violation(sig, f"ValueError: {e}; convex_hull of the same points is not watertight: {txt}")
+
+
 @body("C16.box")
 def b_box(case, ctx):
     P, F = get_points(case)
@@ -392,7 +456,7 @@ def b_box(case, ctx):
             T2, ext2 = tb.oriented_bounds(P.copy())
             box_clauses(ps, T2, ext2, sigbase, "oriented_bounds(n,2)", extra_tol=xt)
         else:
-            T, ext = tb.oriented_bounds(P.copy(), **kw)
+            T, ext = obb_guarded(lambda: tb.oriented_bounds(P.copy(), **kw), ps, "points|oriented_bounds")
             box_clauses(ps, T, ext, sigbase, "oriented_bounds", extra_tol=xt)
     else:
         g = make_geom(case, P, F)
@@ -409,25 +473,26 @@ def b_box(case, ctx):
         chk(((Tb[:3, 3] - half) <= ps.lo + t4).all() and ((Tb[:3, 3] + half) >= ps.hi - t4).all(), f"{sigbase}|bounding_box|contains", lambda: f"centre {Tb[:3,3].tolist()} half {half.tolist()}")
         chk((np.abs(2 * half - (ps.hi - ps.lo)) <= t4).all(), f"{sigbase}|bounding_box|tight", lambda: f"{(2*half).tolist()} vs {(ps.hi-ps.lo).tolist()}")
         # OBB via the function, the primitive, and apply_obb
-        T, ext = tb.oriented_bounds(g, **kw)
+        T, ext = obb_guarded(lambda: tb.oriented_bounds(g, **kw), ps, f"{src}|oriented_bounds")
         box_clauses(ps, T, ext, sigbase, "oriented_bounds", extra_tol=xt)
-        obb = g.bounding_box_oriented
+        obb = obb_guarded(lambda: g.bounding_box_oriented, ps, f"{src}|bounding_box_oriented")
         chk(isinstance(obb, tp.Box), f"{sigbase}|bounding_box_oriented|type", str(type(obb)))
         To = np.asarray(obb.primitive.transform)  # box frame -> world
         rigid_clause(To, 3, sigbase, "bounding_box_oriented.transform")
         box_clauses(ps, inv_rigid(To, 3), np.asarray(obb.primitive.extents), sigbase, "bounding_box_oriented", extra_tol=xt)
         g2 = make_geom(case, P, F)
-        Ta = g2.apply_obb(**kw)
+        Ta = obb_guarded(lambda: g2.apply_obb(**kw), ps, f"{src}|apply_obb")
         R, t = rigid_clause(Ta, 3, sigbase, "apply_obb")
         want = P @ R.T + t
         moved = np.asarray(g2.vertices)
         dev = float(np.abs(moved - want).max())
-        chk(moved.shape == want.shape and dev <= ps.tol, f"{sigbase}|apply_obb|applied", lambda: f"vertices after apply_obb differ from matrix*vertices by {dev:.3e}")
+        sa = shortcut_allowance(R, ps)
+        chk(moved.shape == want.shape and dev <= ps.tol + sa, f"{sigbase}|apply_obb|applied", lambda: f"vertices after apply_obb differ from matrix*vertices by {dev:.3e}")
         psm = PS(moved)
         cen = float(np.abs(psm.lo + psm.hi).max()) / 2.0
-        chk(cen <= ps.tol + xt, f"{sigbase}|apply_obb|centred", lambda: f"bounds after apply_obb {[psm.lo.tolist(), psm.hi.tolist()]}")
+        chk(cen <= ps.tol + xt + 2 * sa, f"{sigbase}|apply_obb|centred", lambda: f"bounds after apply_obb {[psm.lo.tolist(), psm.hi.tolist()]}")
         dif = float(np.abs((psm.hi - psm.lo) - np.asarray(ext)).max())
-        chk(dif <= 2 * (ps.tol + xt), f"{sigbase}|apply_obb|extents", lambda: f"extents after apply_obb {(psm.hi-psm.lo).tolist()} vs obb extents {np.asarray(ext).tolist()}")
+        chk(dif <= 2 * (ps.tol + xt + 2 * sa), f"{sigbase}|apply_obb|extents", lambda: f"extents after apply_obb {(psm.hi-psm.lo).tolist()} vs obb extents {np.asarray(ext).tolist()}")
     ctx.note(
         nontrivial=len(ps.U) >= 5,
         cls=["box:" + lab, "box:src=" + src] + ["box:" + c for c in scale_classes(spec_of(case), ps)] + (["box:planar3"] if planar3 else []),
@@ -478,11 +543,11 @@ def b_sphere(case, ctx):
     general_ok = kind not in ("sphere", "cap")
     sigbase = f"C16.sphere|{src}"
     if src == "points":
-        c, r = tn.minimum_nsphere(P.copy())
+        c, r = guarded(lambda: tn.minimum_nsphere(P.copy()), "C16.sphere", "points|minimum_nsphere")
         general, k, inner = sphere_clauses(ps, c, r, sigbase, "minimum_nsphere", general_ok)
     else:
         g = make_geom(case, P, F)
-        s = g.bounding_sphere
+        s = guarded(lambda: g.bounding_sphere, "C16.sphere", f"{src}|bounding_sphere")
         chk(isinstance(s, tp.Sphere), f"{sigbase}|bounding_sphere|type", str(type(s)))
         general, k, inner = sphere_clauses(ps, s.primitive.center, s.primitive.radius, sigbase, "bounding_sphere", general_ok)
     ctx.note(
@@ -521,17 +586,17 @@ def b_cylinder(case, ctx):
     sigbase = f"C16.cylinder|{src}"
     extra = []
     if src == "points":
-        res = tb.minimum_cylinder(P.copy())
+        res = guarded(lambda: tb.minimum_cylinder(P.copy()), "C16.cylinder", "points|minimum_cylinder")
         inner = cylinder_clauses(ps, res["transform"], res["radius"], res["height"], sigbase, "minimum_cylinder")
     else:
         g = make_geom(case, P, F)
         if src == "mesh" and getattr(g, "symmetry", None) == "radial":
             extra.append("cyl:radial_symmetry_path")
-        cy = g.bounding_cylinder
+        cy = guarded(lambda: g.bounding_cylinder, "C16.cylinder", f"{src}|bounding_cylinder")
         chk(isinstance(cy, tp.Cylinder), f"{sigbase}|bounding_cylinder|type", str(type(cy)))
         inner = cylinder_clauses(ps, cy.primitive.transform, cy.primitive.radius, cy.primitive.height, sigbase, "bounding_cylinder")
         # bounding_primitive: the smallest of the three, and it contains
-        bp = g.bounding_primitive
+        bp = guarded(lambda: obb_guarded(lambda: g.bounding_primitive, ps, f"{src}|bounding_primitive"), "C16.cylinder", f"{src}|bounding_primitive")
         opts = [g.bounding_box_oriented, g.bounding_sphere, g.bounding_cylinder]
         which = [i for i, o in enumerate(opts) if o is bp]
         chk(len(which) >= 1, f"{sigbase}|bounding_primitive|is_one_of_three", str(type(bp)))
